@@ -370,9 +370,17 @@ func (d *Def) getMethodNameAndSetIsStatic(
 				ctx.IsDefineStatic,
 			)
 
-		// def x.m on a receiver that is not known (yet)
+		// def x.m on a receiver that is not known (yet): the method keeps its
+		// name, the receiver is reported
 		if objectT == nil {
-			return "", fmt.Errorf("'%s' is not defined", t.ToString())
+			receiver := t.ToString()
+
+			t, err = p.ReadTwice()
+			if err != nil {
+				return "", err
+			}
+
+			return t.ToString(), fmt.Errorf("'%s' is not defined", receiver)
 		}
 
 		if objectT.ID == "" {
